@@ -109,6 +109,24 @@ def run_tlc(module, cfg, *, env=None, workers=1, timeout=600, xmx="4g", simulate
         shutil.rmtree(tmp, ignore_errors=True)
 
 
+def run_apalache(module, args, timeout=600, spec_dir=SPEC):
+    """apalache-mc check <args> <module>.tla; returns 'NoError', 'Error' (a counterexample), or None if Apalache is not usable"""
+    tmp = tempfile.mkdtemp(prefix="ioptverif-apa-")
+    try:
+        cmd = ["apalache-mc", "check", "--out-dir=" + os.path.join(tmp, "out")] + list(args) + [os.path.join(spec_dir, module + ".tla")]
+        try:
+            p = subprocess.run(cmd, cwd=tmp, stdout=subprocess.PIPE, stderr=subprocess.STDOUT, timeout=timeout, text=True, errors="replace")
+        except (OSError, subprocess.TimeoutExpired):
+            return None
+        if "The outcome is: NoError" in p.stdout:
+            return "NoError"
+        if "The outcome is: Error" in p.stdout:
+            return "Error"
+        return None
+    finally:
+        shutil.rmtree(tmp, ignore_errors=True)
+
+
 def require_ok(res, what):
     if not res.ok or res.violated:
         tail = "\n".join(res.out.splitlines()[-60:])
